@@ -3,6 +3,7 @@ import ast
 import random
 
 from .. import astx, refimpl
+from ..embellish import embellish
 from ..astx import C, N, attr, call, lam
 from ..core import CaseTimeout, case_timeout
 from ..gen_expr import GLOB, Gen, datasets
@@ -192,6 +193,14 @@ def judge(ctx, q, data, info):
         ctx.sample({"in": witness["query"], "out": astx.unparse(out)})
 
 
+SNIPPET_TEXTS = [
+    "ds.Count()", "cfg.jets.Where(lambda j: j.pt > cfg.cut)", "cfg.jets.Select(lambda a: a.trks.Count()).First()", "Count(cfg.jets)",
+    "cfg.jets.Select(lambda j: j.pt).Sum()", "ds.Select(lambda e: e.x).Max()", "cfg.jets.select(lambda j: j.pt)", "ds.SelectMany(lambda e: e.jets).Count()",
+    "cfg.trks.Aggregate(0, lambda a, b: a + b)", "cfg.jets.First(default=cfg.jets.Count())",
+]
+SNIPPETS = [(lambda rnd, t=t: astx.parse_expr(t)) for t in SNIPPET_TEXTS]
+
+
 DIRECTED = [
     "EventDataset().Select(lambda e: e.jets.Where(lambda j: j.pt > 1).Select(lambda j: j.trks.Count()).Max())",
     "EventDataset().Select(lambda e: e.jets.Select(lambda j: j.pt).Sum() + e.jets.Select(lambda j: j.pt).Min())",
@@ -210,6 +219,11 @@ DIRECTED = [
     "e.jets(calibration=e.raw.Select(lambda r: r.scale()), **{'k': e.trks.Count()})",
     "ds.First().jets.Select(lambda j: j.pt)[0].trks.Count()",
     "e.m(*e.jets.Select(lambda j: j.pt), k=[t.trks.Count() for t in e.jets.Where(lambda j: j.ok)])",
+    # python's call and lambda syntax in full: several mappings, starred arguments, defaults (evaluated in the enclosing scope)
+    "e.jets.Where(**cut, **extra)", "e.jets.Select(lambda j: j.pt, *rest, **a, **b).Count(*x, *y)", "ds.Select(lambda e, Count=ds.Count(): e.n + Count)",
+    "ds.Select(lambda e, *, First=ds.Where(lambda x: x.ok).First(): e.n)", "ds.Select(lambda e, q=ds.Select(lambda f: f.jets.Count()).First(), *Sum, **Max: e.n)",
+    "ds.Where(lambda e: (n := e.jets.Count()) > 1 and f'{e.jets.Select(lambda j: j.pt).Max()!r:>{e.trks.Count()}}' != '')",
+    "{**ds.First().cfg, 'n': ds.Count()}", "tbl[ds.Count():, e.jets.Count()]", "[t.Count() async for t in src.Select(lambda s: s.all)]" if False else "[t.Count() for t in src.Select(lambda s: s.all) if t.Where(lambda u: u.ok).Count()]",
 ]
 
 
@@ -235,6 +249,10 @@ def shard_main(ctx):
         feats = set()
         if rnd.random() < 0.4:
             q, feats = decorate(rnd, q)
+        if rnd.random() < 0.35:
+            # rare but legitimate python syntax around / inside the calls (vmon/embellish.py); judged by the structural oracles
+            q, f2 = embellish(rnd, q, SNIPPETS)
+            feats |= {"syntax:" + f for f in f2}
         for f in feats:
             ctx.count("feature:" + f)
         try:
